@@ -103,7 +103,8 @@ def sample_in(P, m, rs):
 
 def ckey(c):
     n = max(len(c.node), 1)
-    return (round(sum(float(p.pos[0]) for p in c.node) / n, 6), round(sum(float(p.pos[1]) for p in c.node) / n, 6), len(c.node))
+    return (round(sum(float(p.pos[0]) for p in c.node) / n, 6), round(sum(float(p.pos[1]) for p in c.node) / n, 6), len(c.node),
+            tuple(sorted((round(float(p.pos[0]), 6), round(float(p.pos[1]), 6)) for p in c.node)))
 
 
 def canon(geo): return sorted(geo.columnlist, key=ckey)
@@ -760,13 +761,7 @@ def chunks(lst, n):
     return [lst[i:i + n] for i in range(0, len(lst), n)]
 
 
-def main():
-    import multiprocessing as mp
-    tier = sys.argv[1] if len(sys.argv) > 1 else 'quick'
-    seed = int(sys.argv[2]) if len(sys.argv) > 2 else 0
-    t0 = time.time()
-    budget = float(os.environ.get('VERIF_BUDGET_S', 45 if tier == 'quick' else 780))   # wall-clock guard; cases not reached are counted
-    deadline = t0 + budget
+def make_tasks(tier, seed, deadline):
     rnd = random.Random(seed)
     quick = tier == 'quick'
     npts = 40 if quick else 200
@@ -811,10 +806,10 @@ def main():
     for ch in chunks(cases, 10): add('list', (ch, npts, seed * 1000 + len(tasks), deadline))
     # C. shipped geometries, random regions
     files = [('g7.dat', 400), ('g5.dat', 400), ('g6.dat', 400), ('g2.dat', 220), ('g1.dat', 400), ('g3.dat', 300), ('g4.dat', 220)]
-    nfile_tasks = 14 if quick else 112
+    nfile_tasks = 28 if quick else 224
     for i in range(nfile_tasks):
         name, mc = files[i % len(files)]
-        add('file', (['file', name, mc, (seed * 31 + i) % 1000], 3 if quick else 8, npts, seed * 1000 + len(tasks), deadline))
+        add('file', (['file', name, mc, (seed * 31 + i) % 1000], 4 if quick else 8, npts, seed * 1000 + len(tasks), deadline))
     # D. decomposition of polygons with 5..10 sides and 0..4 straight angles; triangulation; with neighbours
     cases = []
     for nn in range(5, 11):
@@ -866,9 +861,20 @@ def main():
             cases.append((['file', name, 60, j], [['refine_layers', sorted(rr.sample(range(1, nl), rr.randint(1, 4))), rr.choice([2, 3, 4])]]))
         add('list', (cases, npts, seed * 1000 + len(tasks), deadline))
 
-    rest = [i for i in range(len(tasks)) if tasks[i][0] != 'file']
-    random.Random(seed).shuffle(rest)          # a truncation by the time guard then hits all case families evenly
-    order = [i for i in range(len(tasks)) if tasks[i][0] == 'file'] + rest
+    return tasks
+
+
+def main():
+    import multiprocessing as mp
+    tier = sys.argv[1] if len(sys.argv) > 1 else 'quick'
+    seed = int(sys.argv[2]) if len(sys.argv) > 2 else 0
+    t0 = time.time()
+    budget = float(os.environ.get('VERIF_BUDGET_S', 36 if tier == 'quick' else 780))   # wall-clock guard; cases not reached are counted
+    deadline = t0 + budget
+    tasks = make_tasks(tier, seed, deadline)
+    npts = 40 if tier == 'quick' else 200
+    order = list(range(len(tasks)))
+    random.Random(seed).shuffle(order)         # a truncation by the time guard (loaded machine) then hits all case families evenly
     results = {}
     with mp.Pool(min(16, os.cpu_count() or 4)) as pool:
         for i, rec in pool.imap_unordered(run_task, [(i, tasks[i]) for i in order], chunksize=1):
